@@ -1,6 +1,7 @@
 import KsiVerif.Util.DriverMain
 import KsiVerif.Model.Template
 import KsiVerif.Spec.Tlv
+import KsiVerif.Spec.SchemaRef
 /-! Model driver for C10 — protocol in harness/exec_c10.c. -/
 open KsiVerif KsiVerif.Template
 
@@ -36,57 +37,82 @@ def cfgOf (good : List String) : Cfg :=
   let gs := good.filterMap ofHex
   { derOK := fun b => gs.contains b }
 
-def verdict (cls model impl : String) (spec : Option String) : String :=
+def stOf (s : String) : String := (words s).headD "?"
+
+/-- do the tables generated from the current source still equal the reference schema? -/
+def tablesAreRef : Bool := decide (Gen.templates = SchemaRef.templates)
+
+/-- `model` / `ref`: outputs of the model over the generated tables and over the reference schema.
+By `extract_iff_schema` the model accepts exactly the conforming inputs, so a disagreement about
+acceptance is an input on which the implementation violates the schema (a concrete failing input);
+any other disagreement (values, error code) only breaks the correspondence. -/
+def verdict (cls model impl : String) (spec : Option String) (ref : Option String := none) : String :=
+  let acc (s : String) := stOf s == "0"
   match spec with
   | some why => s!"specfail {cls} {why}"
-  | none => if model == impl then s!"ok {cls}" else s!"diff {cls} model={model}"
+  | none =>
+    match ref with
+    | some r =>
+      if acc impl && !acc r then s!"specfail {cls} accepts-what-the-reference-schema-rejects"
+      else if !acc impl && acc r then s!"specfail {cls} rejects-what-the-reference-schema-accepts"
+      else if model == impl then s!"ok {cls}" else s!"diff {cls} model={model}"
+    | none =>
+      if model == impl then s!"ok {cls}"
+      else if acc impl && !acc model then s!"specfail {cls} accepts-an-input-that-does-not-conform-to-the-schema model={model}"
+      else if !acc impl && acc model then s!"specfail {cls} rejects-an-input-that-conforms-to-the-schema model={model}"
+      else s!"diff {cls} model={model}"
+
+/-- run `f` on the reference schema when the generated tables have moved away from it -/
+def withRef (c : Cfg) (f : Cfg → String) : Option String :=
+  if tablesAreRef then none else some (f { c with tabs := SchemaRef.templates })
 
 def showRes (sortGid : Option Nat) : Except Nat (List (Nat × Val)) → String
   | .error c => s!"{c}"
   | .ok vs => s!"0 {renderObj sortGid vs}"
-
-def stOf (s : String) : String := (words s).headD "?"
 
 def handle (inp out : String) : String :=
   match words inp with
   | "tmpl" :: name :: h :: good =>
     match ofHex h with
     | some raw =>
-      let r := templateParse (cfgOf good) name raw
-      verdict s!"tmpl:{name}:{stOf out}" (showRes none r) out none
+      let f := fun c => showRes none (templateParse c name raw)
+      verdict s!"tmpl:{name}:{stOf out}" (f (cfgOf good)) out none (withRef (cfgOf good) f)
     | none => "skip bad-hex"
   | "aggr" :: ver :: h :: good =>
     match ofHex h, ver.toNat? with
     | some raw, some v =>
-      verdict s!"aggr:v{v}:{stOf out}" (showRes none (parseAggrPdu (cfgOf good) v raw)) out none
+      let f := fun c => showRes none (parseAggrPdu c v raw)
+      verdict s!"aggr:v{v}:{stOf out}" (f (cfgOf good)) out none (withRef (cfgOf good) f)
     | _, _ => "skip bad-args"
   | "ext" :: ver :: h :: good =>
     match ofHex h, ver.toNat? with
     | some raw, some v =>
-      verdict s!"ext:v{v}:{stOf out}" (showRes none (parseExtPdu (cfgOf good) v raw)) out none
+      let f := fun c => showRes none (parseExtPdu c v raw)
+      verdict s!"ext:v{v}:{stOf out}" (f (cfgOf good)) out none (withRef (cfgOf good) f)
     | _, _ => "skip bad-args"
   | "sig" :: h :: good =>
     match ofHex h with
     | some raw =>
-      let sg := ((lookup "KSI_Signature").head?.map (·.gid))
-      let ms := match parseSignature (cfgOf good) raw with
+      let sg := ((lookup Gen.templates "KSI_Signature").head?.map (·.gid))
+      let f := fun c => match parseSignature c raw with
         | .error c => s!"{c}"
         | .ok vs => s!"0 {renderObj sg vs} ser=0:1"
+      let ms := f (cfgOf good)
       -- the parsed signature re-serializes to the bytes it was parsed from (also with unknown elements)
       -- (required for inputs in canonical encoding: every level that tiles is minimally encoded)
       let canonical := match Tlv.parseBlob raw with
         | .ok t => TlvSpec.encode (Tlv.deepen 12 t) == raw
         | .error _ => false
       let spec := if (stOf out) == "0" && canonical && !(out.endsWith " ser=0:1") then some "parsed-signature-does-not-reserialize-to-its-input" else none
-      verdict s!"sig:{stOf out}" ms out spec
+      verdict s!"sig:{stOf out}" ms out spec (withRef (cfgOf good) f)
     | none => "skip bad-hex"
   | "pub" :: h :: good =>
     match ofHex h with
     | some raw =>
-      let ms := match parsePubFile (cfgOf good) raw with
+      let f := fun c => match parsePubFile c raw with
         | .error c => s!"{c}"
         | .ok (vs, sl) => s!"0 {renderObj none vs} signed={sl}"
-      verdict s!"pub:{stOf out}" ms out none
+      verdict s!"pub:{stOf out}" (f (cfgOf good)) out none (withRef (cfgOf good) f)
     | none => "skip bad-hex"
   | _ => "skip unknown-op"
 
